@@ -87,6 +87,14 @@ func avoidFor(prop string) func(hist.Step, *hist.MRunner) string {
 				}
 			}
 		}
+		if guard("F-35") {
+			switch s.Op {
+			case "remove", "removeall", "rename", "arch_delete", "arch_move":
+				if mr.TouchesLink(s.Path) || (s.Path2 != "" && mr.TouchesLink(s.Path2)) {
+					return "F-35"
+				}
+			}
+		}
 		// Archive-level calls are generated the way the CLI uses them on sane inputs: new
 		// names for Archive, existing entries of the same kind for Update, a free
 		// destination for Move, no name twice in one batch.
